@@ -6,7 +6,9 @@ use crate::{
     },
     imperatively_loaded_fields::get_paths_and_contents_for_imperatively_loaded_field,
     normalization_ast_text::generate_normalization_ast_text,
-    operation_text::{OperationText, generate_operation_text},
+    operation_text::{
+        OperationText, generate_operation_text, query_text_as_single_quoted_js_string_body,
+    },
     persisted_documents::PersistedDocuments,
     raw_response_type::generate_raw_response_type,
 };
@@ -282,7 +284,11 @@ pub(crate) fn generate_entrypoint_artifacts_with_client_scalar_selectable_traver
     crate::verif::rec_flush("E");
     let mut path_and_contents = Vec::with_capacity(refetch_paths_with_variables.len() + 3);
     path_and_contents.push(ArtifactPathAndContent {
-        file_content: format!("export default '{query_text}';").into(),
+        file_content: format!(
+            "export default '{}';",
+            query_text_as_single_quoted_js_string_body(&query_text.0)
+        )
+        .into(),
         artifact_path: ArtifactPath {
             file_name: *QUERY_TEXT_FILE_NAME,
             type_and_field: EntityNameAndSelectableName {
